@@ -19,9 +19,21 @@ src = Path(a.src or f"/tmp/seed-{a.pid}-out")
 name = a.name or a.pid
 dst = R / "seeded" / name
 dst.mkdir(parents=True, exist_ok=True)
+prev = {}
+if (dst / "meta.json").exists():
+    try:
+        prev = json.loads((dst / "meta.json").read_text())
+    except Exception:
+        prev = {}
 for f in ("patch.diff", "demo.py", "meta.json"):
-    shutil.copy(src / f, dst / f)
+    if (src / f).exists():
+        shutil.copy(src / f, dst / f)
 meta = json.loads((dst / "meta.json").read_text())
+if prev.get("result"):
+    meta["history"] = prev.get("history", []) + [{"result": prev["result"], "detected_by": prev.get("detected_by"),
+                                                   "checks_run": prev.get("checks_run")}]
+    for k in ("strengthening",):
+        if k in prev: meta[k] = prev[k]
 wt = Path("/tmp/wt-V")
 head = subprocess.check_output(["git", "-C", "/repo", "rev-parse", "HEAD"], text=True).strip()
 if not wt.exists():
